@@ -223,3 +223,18 @@ Proof. unfold format_pure. cbn. destruct (render 10 a); reflexivity. Qed.
 (* repr of a string is quoted with double quotes; str of a string is the string *)
 Theorem repr_plain : repr_obs (OStr "ab") = Some """ab""" /\ str_obs (OStr "ab") = Some "ab".
 Proof. split; reflexivity. Qed.
+
+(* ---- the interpreter runs the pure layer: two entry points spelled out ------------------------------------------- *)
+Lemma stake_all x : stake (String.length x) x = x.
+Proof. induction x as [|c r IH]; cbn; [reflexivity|]. rewrite IH. reflexivity. Qed.
+Lemma str_window_whole x : str_window x None None = Some (0%Z, x).
+Proof.
+  unfold str_window. cbn zeta.
+  assert (E : (Z.of_nat (String.length x) <? 0)%Z = false) by (apply Z.ltb_ge; lia).
+  rewrite E. cbn [orb]. rewrite Z.sub_0_r, Nat2Z.id. cbn [Z.to_nat sdrop]. rewrite stake_all. reflexivity.
+Qed.
+Theorem startswith_is_prefix x p : str_method_pure x "startswith" [OStr p] [] = rbool (is_prefix p x).
+Proof.
+  unfold str_method_pure. cbn [String.eqb Ascii.eqb Bool.eqb andb]. cbv iota. cbn [with_affixes].
+  rewrite str_window_whole. cbn [existsb]. rewrite orb_false_r. reflexivity.
+Qed.
